@@ -478,6 +478,17 @@ C0109_ServedIsContent ==
     (l > 1 /\ Rec[l - 1].ev = "Settled")
         => rp.rrdpdiff = 0 /\ rp.rsyncdiff = 0
 
+\* C09: the synchronisation of a hosted CA with each of its parents is
+\* recurring maintenance: whatever the outcome of a run (success, a refusal by
+\* the parent, a parent that does not know the CA any more), the task is in
+\* the queue at every instant -- due, scheduled for later, or running --
+\* for as long as the CA exists and has that parent
+\* (scheduler.rs sync_parent: FollowUp / Reschedule; Done only when the CA or
+\* its record of the parent is gone)
+C09_ParentSyncKept ==
+    (l > 1 /\ Rec[l - 1].ev \notin {"reset", "Setup"} /\ "qsync" \in DOMAIN Rec[l - 1].abs) =>
+        \A c \in AllCA : (Ex(c) /\ hasp[c]) => c \in SetOf(Rec[l - 1].abs.qsync)
+
 \* C04 / C09 / C15: at a settle point nothing is left to do between Top and
 \* the trust anchor (queued requests answered, answers fetched, certificates
 \* published)
